@@ -117,6 +117,9 @@ func (d *badgerNodeDB) GetNode(root node.Root, ptr *node.Pointer) (node.Node, er
 // Implements api.Batch.
 func (ba *badgerBatch) VisitCleanNode(ptr *node.Pointer, parent *node.Pointer) error {
 	var needsPutNode bool
+	if parent == nil {
+		ba.rootPtr = ptr
+	}
 	if parent == nil && ptr.DBInternal == nil {
 		// If this is a clean root node, don't do anything as it seems the root has not changed.
 		// This is a special case because roots are only resolved if any modification or lookup is
@@ -168,7 +171,71 @@ func (ba *badgerBatch) VisitCleanNode(ptr *node.Pointer, parent *node.Pointer) e
 
 // Implements api.Batch.
 func (ba *badgerBatch) VisitDirtyNode(ptr *node.Pointer, parent *node.Pointer) error {
+	if parent == nil {
+		ba.rootPtr = ptr
+	}
 	return ba.refreshDbPtr(ptr, parent)
+}
+
+// adoptStoredPointers makes the tree that is being committed refer to the nodes of an already stored
+// root with the same hash (so an identical tree) through the database pointers they are stored under.
+func (ba *badgerBatch) adoptStoredPointers(root node.Root) error {
+	if ba.rootPtr == nil || root.Hash.IsEmpty() {
+		return nil
+	}
+
+	stored := &node.Pointer{Clean: true, Hash: root.Hash}
+	var err error
+	if stored.Node, err = ba.db.GetNode(root, stored); err != nil {
+		return err
+	}
+	return ba.adoptStoredPointer(root, ba.rootPtr, stored)
+}
+
+func (ba *badgerBatch) adoptStoredPointer(root node.Root, ptr, stored *node.Pointer) error {
+	if ptr == nil || stored == nil {
+		return nil
+	}
+	siptr, ok := stored.DBInternal.(*dbPtr)
+	if !ok {
+		return fmt.Errorf("mkvs/pathbadger: stored node without internal pointer")
+	}
+
+	// A clean subtree that already refers to the same stored node is stored identically below.
+	iptr, _ := ptr.DBInternal.(*dbPtr)
+	if ptr.Clean && iptr != nil && *iptr == *siptr {
+		return nil
+	}
+	ptr.DBInternal = siptr.Clone()
+
+	intNode, ok := ptr.Node.(*node.InternalNode)
+	if !ok {
+		return nil // Leaf node or a node that is not in memory (resolved through the new pointer).
+	}
+	if stored.Node == nil {
+		var err error
+		if stored.Node, err = ba.db.GetNode(root, stored); err != nil {
+			return err
+		}
+	}
+	storedNode, ok := stored.Node.(*node.InternalNode)
+	if !ok {
+		return fmt.Errorf("mkvs/pathbadger: stored node kind mismatch (db corruption?)")
+	}
+
+	for _, p := range []struct {
+		ptr    *node.Pointer
+		stored *node.Pointer
+	}{
+		{intNode.LeafNode, storedNode.LeafNode},
+		{intNode.Left, storedNode.Left},
+		{intNode.Right, storedNode.Right},
+	} {
+		if err := ba.adoptStoredPointer(root, p.ptr, p.stored); err != nil {
+			return err
+		}
+	}
+	return nil
 }
 
 // refreshDbPtr recomputes the data for the internal database pointer.
